@@ -87,7 +87,8 @@ V_REQUIRES(stopping || g_mod->state == M_MOD_RUNNING)                           
 V_ASSIGNS(V_STOP_FRAME)
 V_ENSURES(V_MOD_OK && V_INV && g_ctx->curr_mod == V_OLD(g_ctx->curr_mod))                 /*@C01.running-count-equals-running-modules*/ /*@C03.loop-exit-condition-counts-exactly-the-running-modules*/                                                                         /*@C01.running-count-equals-running-modules*/
 V_ENSURES(V_IMP(g_ms_ret != 0, V_RET == g_ms_ret && g_mod->state == V_OLD(g_mod->state) && g.on_stop_calls == V_OLD(g.on_stop_calls) && g.sys_msgs == V_OLD(g.sys_msgs) && g.reset_calls == V_OLD(g.reset_calls)))
-V_ENSURES(g.on_eval_calls == V_OLD(g.on_eval_calls) && g.ms_calls == V_OLD(g.ms_calls) + 1 && g.ms_flag == RM && g.ms_stop == stopping && g.ips_calls == V_OLD(g.ips_calls))
+/* whatever non-zombie state the module is in (a PAUSED module can be stopped too), its sources are taken out of the poll set and -- on a stop -- dropped from the registry */
+V_ENSURES(g.on_eval_calls == V_OLD(g.on_eval_calls) && g.ms_calls == V_OLD(g.ms_calls) + 1 && g.ms_flag == RM && g.ms_stop == stopping && g.ips_calls == V_OLD(g.ips_calls))   /*@C09.all-sources-dropped-when-the-module-is-stopped*/ /*@C01.stop-removes-sources-in-every-state*/
 /* every pin taken on the module while stopping (the stop callback's) is dropped again */
 V_ENSURES(g.ref_calls - V_OLD(g.ref_calls) == g.unref_calls - V_OLD(g.unref_calls))                                                          /*@C04.pins-balanced-across-stop*/
 /* pause: RUNNING -> PAUSED, neither callback runs, sources kept, one MOD_STOPPED notification naming the module */
